@@ -2,3 +2,4 @@ import AtsimModel.Driver.Pair
 import AtsimModel.Driver.Eam
 import AtsimModel.Driver.Range
 import AtsimModel.Driver.Cutoff
+import AtsimModel.Driver.Expr
